@@ -445,6 +445,30 @@ int hydrate(const std::string& file, const std::vector<Obj>& objs, const std::st
     sqlite3_close(db);
     return skipped;
 }
+// The same replacement of the schema objects, but through a second connection on the *existing* file while the library keeps
+// its own connection open (schema cookie and change counter move as SQLite prescribes, so the library's connection sees it).
+bool hydrate_in_place(const std::string& file, const std::vector<Obj>& objs)
+{
+    sqlite3* db = nullptr;
+    if (sqlite3_open_v2(file.c_str(), &db, SQLITE_OPEN_READWRITE, nullptr) != SQLITE_OK) { sqlite3_close(db); return false; }
+    sqlite3_busy_timeout(db, 2000);
+    bool ok = sqlite3_exec(db, "PRAGMA foreign_keys=OFF; BEGIN IMMEDIATE; CREATE TEMP TABLE keep_information AS SELECT * FROM main.Information", nullptr, nullptr, nullptr) == SQLITE_OK;
+    std::vector<std::string> theirs;
+    for (auto& c : sfp::q(db, "PRAGMA temp.table_info('keep_information')")) theirs.push_back(c[1]);
+    for (const char* type : {"trigger", "view", "table"})
+        for (auto& r : sfp::q(db, std::string("SELECT name FROM main.sqlite_master WHERE type='") + type + "' AND name NOT LIKE 'sqlite_%'"))
+            sqlite3_exec(db, (std::string("DROP ") + type + " IF EXISTS main.[" + r[0] + "]").c_str(), nullptr, nullptr, nullptr);
+    for (auto& o : objs) sqlite3_exec(db, o.sql.c_str(), nullptr, nullptr, nullptr);
+    std::vector<std::string> mine, common;
+    for (auto& c : sfp::q(db, "PRAGMA main.table_info('Information')")) mine.push_back(c[1]);
+    for (auto& c : mine)
+        if (std::find(theirs.begin(), theirs.end(), c) != theirs.end()) common.push_back("[" + c + "]");
+    if (!common.empty())
+        sqlite3_exec(db, ("INSERT OR REPLACE INTO main.Information (" + join(common, ",") + ") SELECT " + join(common, ",") + " FROM temp.keep_information").c_str(), nullptr, nullptr, nullptr);
+    ok = sqlite3_exec(db, "COMMIT", nullptr, nullptr, nullptr) == SQLITE_OK && ok;
+    sqlite3_close(db);
+    return ok;
+}
 std::map<std::string, std::string> file_fp(const std::string& file)
 {
     sqlite3* db = nullptr;
@@ -560,6 +584,33 @@ int run(const Options& o)
                     a.violation((v2 ? "v2|" : "v1|") + m.kind + "|" + outcome, "[" + sn + ", " + which + "] " + m.desc + ": reported as " + what + " instead of database_inconsistency", cid);
                 else
                     a.count("validated");
+                // the same deviation appearing *after* this handle has already verified the library once: verify() judges the
+                // database as it is now, not as it was (every mutant that touches neither the version row nor the file set)
+                if (!m.touches_information)
+                {
+                    auto mutated_fp = file_fp(dir + rel);
+                    if (system(("rm -rf '" + dir + "' && cp -r '" + pristine_dir + "' '" + dir + "'").c_str())) {}
+                    std::string outcome2, what2;
+                    try
+                    {
+                        auto db = eng::load_database(dir);
+                        db.verify();
+                        if (!hydrate_in_place(dir + rel, m.objs) || file_fp(dir + rel) != mutated_fp) outcome2 = "harness_in_place_mismatch";
+                        else
+                        {
+                            try { db.verify(); outcome2 = "accepted"; }
+                            catch (const djinterop::database_inconsistency&) { outcome2 = "inconsistency"; }
+                            catch (const std::exception& e) { outcome2 = "other_exception_in_verify"; what2 = e.what(); }
+                        }
+                    }
+                    catch (const std::exception& e) { outcome2 = "pristine_rejected"; what2 = e.what(); }
+                    a.count("reverify." + outcome2);
+                    if (only_idx >= 0) printf("  mutant %zu applied after a first verify(): %s %s\n", k, outcome2.c_str(), what2.c_str());
+                    if (outcome2 == "accepted")
+                        a.violation((v2 ? "v2|" : "v1|") + m.kind + "|accepted_after_earlier_verify", "[" + sn + ", " + which + "] a handle that has verified the library once accepts it after: " + m.desc, cid);
+                    else if (outcome2 == "other_exception_in_verify" || outcome2 == "pristine_rejected")
+                        a.violation((v2 ? "v2|" : "v1|") + m.kind + "|reverify_" + outcome2, "[" + sn + ", " + which + "] " + m.desc + " (applied after a first verify()): " + what2, cid);
+                }
                 if ((k & 31) == 31) a.flush(em);
             }
             if (system(("rm -rf '" + dir + "' '" + pristine_dir + "'").c_str())) {}
@@ -628,7 +679,7 @@ int run(const Options& o)
     c["distinct_nontrivial"] = total.ndistinct("mutants");
     c["states"] = total.ndistinct("mutants");
     c["transitions"] = total.get("evaluations");
-    c["traces_validated_against_impl"] = total.get("validated") + refs_ok;
+    c["traces_validated_against_impl"] = total.get("validated") + refs_ok + total.get("reverify.inconsistency");
     c["rule"] =
         "For each schema version (and, for 1.x, separately for m.db and p.db) the DDL of a freshly created on-disk library is read from sqlite_master and every single-element mutation is generated "
         "mechanically: for every table, view and index: drop, rename, add a new one; for every index: toggle UNIQUE, add / replace / remove / swap an indexed column; for every column of every "
@@ -636,7 +687,10 @@ int run(const Options& o)
         "(quick tier: column-level mutants on 1.6.0, 1.18.0-os, 2.18.0, 2.21.2 only; thorough: all 18). Each mutant is materialised by re-hydrating the database file from the mutated DDL "
         "(statements that no longer compile are dropped), placed in the proper layout, loaded and verified. A mutant whose independent structural fingerprint (C12's) equals the original's is "
         "equivalent and skipped. Rejecting side: every other mutant must end in database_inconsistency. Accepting side: the created library, a library re-hydrated from its unmutated DDL, and all "
-        "reference libraries under testdata/ref (hydrated by create_database_from_scripts) must pass. Triggers and view bodies are outside the statement and are not mutated.";
+        "reference libraries under testdata/ref (hydrated by create_database_from_scripts) must pass. Triggers and view bodies are outside the statement and are not mutated. "
+        "Second mode, same mutants: the pristine library is loaded and verified first (must pass), the mutation is then applied to the open library's file through a second connection "
+        "(drop and re-create in one transaction; the result must have the same fingerprint as the re-hydrated file, otherwise no verdict is taken and the case is counted as a harness "
+        "mismatch), and the same handle's second verify() must report database_inconsistency.";
     c["exhaustive"] = exhaustive;
     Json b = Json::object();
     b["tasks_total"] = (long long)tasks.size();
@@ -652,6 +706,7 @@ int run(const Options& o)
     int bad = rep.finish();
     if (!total.harness_errors.empty()) bad = -1;
     ev.write(bad < 0 ? 0 : bad, rep.known_hits());
+    printf("C17 %s: reverify: rejected=%lld accepted=%lld harness_mismatch=%lld\n", o.tier.c_str(), total.get("reverify.inconsistency"), total.get("reverify.accepted"), total.get("reverify.harness_in_place_mismatch"));
     printf("C17 %s: mutants=%lld rejected=%lld accepted=%lld equivalent=%lld refs=%lld/%lld tasks=%zu/%zu exhaustive=%d wall=%.1fs\n", o.tier.c_str(), total.ndistinct("mutants"), total.get("outcome.inconsistency"),
            total.get("outcome.accepted"), total.get("outcome.equivalent_mutant_skipped"), refs_ok, refs_total, done, tasks.size(), (int)exhaustive, now_s() - t0);
     return bad;
